@@ -267,6 +267,39 @@ def run(ctx):
                        msg=f'the search returns {p.ret} on a path without the test idesc == desc (conditions: {T[-3:]})')
     r.require_min(3)
 
+    # ---------------- R14j unlink rewrites the link that points at the removed instance
+    r = ctx.rule('R14j', 'unregister: the pointer that is overwritten is one that was compared equal to the removed instance (head or predecessor link)',
+                 'rewriting another node\'s link (e.g. the head\'s instead of the predecessor\'s) cuts live instances out of the registry')
+    uf = P.fn('liberasurecode_backend_instance_unregister')
+    Cu = Canon(P, uf)
+    inst_param = uf.params[0][1]
+    nun = 0
+    for st in [i for i in uf.insts() if i.op == 'store']:
+        root, steps = access_path(P, uf, st.ops[1])
+        fl = fields_in_path(steps)
+        if not (root == '@active_instances' or ('ec_backend', 'link') in fl):
+            continue
+        nun += 1
+        F = Facts(P, uf, st.bb)
+        addr = Cu.addr(st.ops[1])
+        ok = False
+        for raw, truth in F.raw:
+            if raw.op == 'icmp' and ((raw.pred == 'eq') == truth) and raw.pred in ('eq', 'ne') and inst_param in raw.ops:
+                other = raw.ops[0] if raw.ops[1] == inst_param else raw.ops[1]
+                od = uf.defs.get(other)
+                if od is not None and od.op == 'load' and (od.ops[0] == st.ops[1] or Cu.addr(od.ops[0]) == addr):
+                    ok = True
+        inst = f'unregister: store to {addr[:50]} at line {st.line}'
+        if ok:
+            r.ok(inst + ': that pointer was found equal to the instance being removed', func=uf.name, loc=st.loc)
+        else:
+            r.fail(inst, func=uf.name, sig='unlink rewrites a pointer not shown to point at the removed instance', loc=st.loc,
+                   msg=f'the registry pointer {addr} is overwritten although no dominating test shows that it points at the instance being removed: '
+                       'every instance between that node and the removed one is cut out of the list')
+    if not nun:
+        r.undecided('unregister: list surgery', loc=uf.mod.src, msg='no store into the registry list found')
+    r.require_min(2)
+
     # ---------------- R14f
     r = ctx.rule('R14f', 'GF table references: +1 on every successful RS init path, 0 on every failing one, -1 in exit; free only at count 0',
                  'an unbalanced count frees tables a live instance uses, or keeps 1 MiB forever')
